@@ -197,6 +197,15 @@ def answer (l : Line) : Option Ans :=
       | _ => some "groupby:malformed-answer"
     let nt := match m with | .ok g => g.length ≥ 2 && g.any (fun e => e.2.length ≥ 2) | .panic => false
     pure { model := outVals (fun g => [ofGroups (sortGroups g)]) m, spec := spec, tags := ["groupby"], nontrivial := nt }
+  | "groupbynan", [sv] => do
+    -- GroupBy under a float64 key that is NaN for the multiples of 3 and x mod 2 otherwise: every element is in exactly
+    -- one group (the total is the input length) and the two ordinary groups are the order-preserving sub-sequences
+    let s ← sv.ints?
+    let g0 := s.filter (fun x => x % 3 != 0 && x % 2 == 0)
+    let g1 := s.filter (fun x => x % 3 != 0 && x % 2 != 0)
+    let want := [Val.int s.length, Val.ofInts g0, Val.ofInts g1]
+    pure { model := want, tags := ["groupby:nan-keys"], nontrivial := s.any (fun x => x % 3 == 0) && s.length ≥ 2
+           spec := if isPanic res then some "groupby:no-panic" else clause (res == want) "groupby:every-element-exactly-once:nan-keys" }
   | op@"zip", [mv] | op@"unzip", [mv] => do
     let m ← matrix? mv
     let tr := op == "unzip"
